@@ -6,7 +6,10 @@ Proof      : coq/Props/C16.v (C16_durable_prefix, C16_acked_durable, C16_each_pu
              background persistence events interleaved with the calls); the publish discipline as an
              executable checker; the library's publish_meta / publish_data / commit / rollback programs.
 Tie        : translator/gen_durable.py regenerates the two publish call sequences (write_file,
-             DataFileWriter.open+close) from the source into Gen/GenDurable.v and pins the order of the
+             DataFileWriter.open+close) from the source into Gen/GenDurable.v, reads their ERROR paths (every
+             `try` around a durability call must let an OS failure reach the caller -- a swallowed directory
+             fsync failure is rejected, fail closed; gen_*_fallible = 5, gen_*_on_error = the cleanup handler)
+             and pins the order of the
              commit's steps; and the OS-call trace:  Every scenario is run on the real library under
              harness/lib/ostrace.py (in-process interception; strace -f on a subprocess), the raw
              trace is projected on the model's alphabet and
@@ -29,13 +32,20 @@ search       prefix of every OBSERVED raw trace x {drop-all, entries-early, root
              written before the metadata file (runtime mutations of the library) the oracle must
              produce a concrete crash prefix, otherwise the check fails.
 Faults     : one fault per run at EVERY durability call of the fault scenarios (temp creation, write, the
-             descriptor opened for an fsync, fsync, rename; files and directories): OSError(EIO) instead of the
+             descriptor opened for an fsync, fsync, rename; files AND directories): OSError(EIO) instead of the
              call, and for every write also a POSIX short write.  The library must either abort the operation
              (nothing acknowledged, pointer not advanced) or complete it whole: the same power-loss oracle judges
              every prefix of what it did next and the durability of what it acknowledged; the replay is
-             {steps, fault index/kind, crash prefix}.  Faults on a DIRECTORY descriptor / fsync are tolerated by
-             the library by design (DESIGN.md C16 "Not in the model"): evaluated and counted, not reported.
-             Fault runs that hit a publish inside append_data are also compared with the model (op OFail).
+             {steps, fault index/kind, crash prefix}.  A failing DIRECTORY open / fsync is judged like every other
+             fault ("... and its directory entry persisted"): finding F-C16b -- write_file / DataFileWriter.close
+             swallowed it (`except (OSError, AttributeError): pass`) and the commit was acknowledged with a rename
+             that a power loss drops (findings/C16-dirsync-unchanged-tree.log); repaired: DirectorySyncError.
+             A commit whose POINTER's own directory fsync fails is reported AmbiguousCommitError (not acknowledged;
+             the pointer stays advanced in the page cache): the acknowledged-commit check applies to steps that
+             moved the pointer and reported success.
+             Fault runs that hit a publish inside append_data are also compared with the model (op OFail, k = 0..4;
+             k = 4 = the directory fsync failed, the file stays linked); failures inside commit() (manifests,
+             list, metadata file, pointer) are judged by the oracle only.
 Bounded    : every in-process run happens in a worker subprocess (harness/lib/c16_worker.py) with a wall-clock
              alarm, an address-space limit and a progress watchdog; a hang / crash / memory blow-up of the library
              is reported as a violation with its input (key operation-not-bounded:*), never a stuck check.
@@ -58,17 +68,22 @@ PRE = "Open Scope N_scope.\n"
 
 MANIFEST_ENTRY = {
     "level_text": "C16_durable_prefix / C16_acked_durable / C16_each_publish / C16_disciplined_safe proved in Coq (unbounded "
-                  "histories of commits and rolled-back transactions, every prefix of the OS-call trace, every schedule of "
+                  "histories of commits, rolled-back transactions and appends failing with an OS error at any of the five "
+                  "durability calls of a publish -- the directory fsync included; every prefix of the OS-call trace, every schedule of "
                   "background persistence = every subset of unsynced contents / directory entries reaching the disk), over "
-                  "publish call sequences regenerated from write_file / DataFileWriter on every run; the model's traces are "
+                  "publish call sequences AND their error paths (which failures reach the caller; a swallowed directory-fsync "
+                  "failure is rejected by the translator) regenerated from write_file / DataFileWriter on every run; the model's traces are "
                   "tied to the code by equality with the observed OS-call traces (in-process interception and strace), the "
                   "observed traces themselves are checked against the proved publish discipline, and an independent "
                   "power-loss evaluator + reader replays every prefix of every observed trace, also with one OS fault "
-                  "(EIO or short write) injected at each durability call",
+                  "(EIO or short write) injected at each durability call, files and directories alike",
     "level_note": "trusted: Coq kernel; the POSIX-strict power-loss model (fsync = barrier for one inode, directory fsync = "
                   "barrier for that directory's entries); translator/gen_durable.py; the tracers and the canonicaliser; "
-                  "directory creation (makedirs), the table root's own entry and a swallowed OSError from a directory "
-                  "fsync are outside the theorems (the last is reported as an informational fault variant)",
+                  "directory creation (makedirs) and the table root's own entry are outside the theorems; OS failures INSIDE "
+                  "commit() (manifest / list / metadata file / pointer publishes) are judged by the fault-injection oracle only, "
+                  "the theorems cover failures inside append_data (OFail); a directory fsync refused as unsupported (EINVAL / "
+                  "ENOTSUP / AttributeError / Windows; dir_fsync_unsupported is pinned) is tolerated by the library: on such a "
+                  "platform the POSIX-strict model does not apply",
     "technique": "Coq invariant proof over a relational crash model + OS-trace correspondence + prefix power-loss oracle",
     "design_ref": "DESIGN.md section 5 C16",
 }
@@ -203,10 +218,43 @@ class Case:
     def _failed_append(self, i: int, res: Dict[str, Any], lo: int, hi: int, by_kind: Dict[str, List[Dict[str, Any]]]) -> None:
         """A transaction whose append_data raised and that was rolled back: model op OFail its mk fl k.
         its = the (marker, data file) pairs completed before; the failing publish is the temp that was
-        created but never renamed (k = how many of Create / Write / Fsync it got), or nothing at all (k = 0)."""
+        created but never renamed (k = how many of Create / Write / Fsync it got), or nothing at all (k = 0),
+        or the file that was renamed into place but whose directory was never fsynced (k = 4)."""
         calls = self.calls[lo:hi]
         renamed = {c[1] for c in calls if c[0] == "Rename"}
         orphans = [c[1] for c in calls if c[0] == "Create" and c[1] not in renamed]
+        # a publish whose DIRECTORY fsync (or the descriptor opened for it) failed: renamed into place, the rename
+        # not followed by the FsyncDir of its directory (k = 4: the file stays linked, nothing is cleaned up)
+        half = [p for kk in ("marker", "data") for p in by_kind.get(kk, [])
+                if not (p["call"] + 1 < len(self.calls) and self.calls[p["call"] + 1] == ("FsyncDir", p["cpath"][1]))]
+        if half:
+            if len(half) > 1 or orphans:
+                self.problems.append(f"step {i}: failed append with {len(half)} publishes lacking their directory fsync and {len(orphans)} unfinished temps")
+                return
+            h = half[0]
+            rest = {kk: [p for p in by_kind.get(kk, []) if p is not h] for kk in ("marker", "data")}
+            markers = {os.path.basename(p["rel"])[: -len(".inflight")]: p for p in rest["marker"]}
+            data_order = [d.lstrip("/") for d in res.get("data_files", [])]
+            datas = sorted(rest["data"], key=lambda p: data_order.index(p["rel"]) if p["rel"] in data_order else 10**6)
+            its = []
+            for f in datas:
+                m = markers.pop(os.path.basename(f["rel"]), None)
+                if m is None:
+                    self.problems.append(f"step {i}: {f['rel']} published without a marker")
+                    return
+                its.append({"marker": self.pub(m), "file": self.pub(f)})
+            if powerloss.kind_of(h["rel"]) == "data":
+                m = markers.pop(os.path.basename(h["rel"]), None)
+                if m is None or markers:
+                    self.problems.append(f"step {i}: data file {h['rel']} (directory fsync failed) without exactly its marker")
+                    return
+                self.ops.append({"fail": its, "mk": self.pub(m), "fl": self.pub(h), "k": 4, "step": i})
+            else:
+                if markers:
+                    self.problems.append(f"step {i}: marker {h['rel']} (directory fsync failed) next to unpaired markers {sorted(markers)}")
+                    return
+                self.ops.append({"fail": its, "mk": self.pub(h), "fl": None, "k": 4, "step": i})
+            return
         markers = {os.path.basename(p["rel"])[: -len(".inflight")]: p for p in by_kind.get("marker", [])}
         data_order = [d.lstrip("/") for d in res.get("data_files", [])]
         datas = sorted(by_kind.get("data", []), key=lambda p: data_order.index(p["rel"]) if p["rel"] in data_order else 10**6)
@@ -291,15 +339,22 @@ def first_diff(a: List[Any], b: List[Any]) -> Dict[str, Any]:
 
 # ------------------------------------------------------------------------------------------ oracle
 def ack_check(case: Case) -> List[Dict[str, Any]]:
-    """After an acknowledged commit (step end), the drop-all durable pointer is the live pointer."""
+    """After an acknowledged commit (the end of a step that advanced the pointer and reported success), the drop-all
+    durable pointer is the live pointer.  A step that did not move the pointer (rollback, reopen) acknowledges no commit:
+    the live pointer may then be the one an earlier commit left whose outcome was REPORTED as ambiguous (the pointer's own
+    directory fsync failed after the rename -> AmbiguousCommitError, step not ok), which nobody was told is durable."""
     bad: List[Dict[str, Any]] = []
     fs = powerloss.PLFS(case.root)
-    step_of_end = {}
+    moved = False
     for k, ev in enumerate(case.raw):
         fs.apply(ev)
+        if ev["op"] == "mark" and ev["label"].endswith(":begin"):
+            moved = False
+        if ev["op"] == "rename" and fs.rel(ev["path2"]) == powerloss.POINTER:
+            moved = True
         if ev["op"] == "mark" and ev["label"].endswith(":end"):
             i = int(ev["label"].split(":")[0])
-            if not case.results[i].get("ok"):
+            if not case.results[i].get("ok") or not moved:
                 continue
             live = fs.volatile_content(powerloss.POINTER)
             e, d = fs.durable()
@@ -402,11 +457,17 @@ def report_violations(ctx, case: Case, viol: List[Dict[str, Any]], mutation: Opt
     if fault is not None:
         fdesc = next((f for f in case.faultlog if f.get("injected")), None)
         if fdesc is not None:
-            key += f":after-failed-{fdesc['call']}-of-{powerloss.kind_of(_final_guess(fdesc['path']))}"
+            key += f":after-failed-{fdesc['call']}-of-" + ("dir-" + (fdesc['path'].replace("/", "_") if fdesc['path'] != "." else "root")
+                                                          if fdesc.get("isdir") else powerloss.kind_of(_final_guess(fdesc['path'])))
     trace_txt = powerloss.describe_trace(case.raw, case.root)
     n = v["prefix"] or 0
-    what = (f"power loss after call #{n} ({v.get('last_call')}) under outcome {v['outcome']}: the surviving pointer references "
-            f"{prob.get('file')} which is {prob.get('problem')} ({prob.get('detail', '')}) -- scenario {steps}, tracer {case.mode}")
+    if "live_pointer" in prob:
+        what = (f"power loss after call #{n} (the acknowledgement of step {prob.get('step')}) under outcome {v['outcome']}: the acknowledged "
+                f"commit is not durable -- the pointer every process sees names {prob.get('live_pointer')!r}, the pointer on disk is "
+                f"{prob.get('durable_pointer')!r} -- scenario {steps}, tracer {case.mode}")
+    else:
+        what = (f"power loss after call #{n} ({v.get('last_call')}) under outcome {v['outcome']}: the surviving pointer references "
+                f"{prob.get('file')} which is {prob.get('problem')} ({prob.get('detail', '')}) -- scenario {steps}, tracer {case.mode}")
     if fdesc is not None:
         what += (f"; injected fault: durability call #{fdesc['i']} ({fdesc['call']} of {fdesc['path']}, in {fdesc['module']}) raised OSError(EIO) "
                  f"and the library went on to acknowledge: steps ok = {[r.get('ok') for r in case.results]}")
@@ -489,8 +550,8 @@ FAULT_SCENARIOS: List[List[Any]] = [
 
 
 def is_dir_sync_fault(f: Dict[str, Any]) -> bool:
-    """open / fsync of a DIRECTORY: the library tolerates its failure by design ("directory fsync not
-    supported - acceptable"; DESIGN.md C16 'Not in the model'), so these faults are evaluated but only counted."""
+    """open / fsync of a DIRECTORY (the last call of a publish: it persists the rename).  Counted separately in the
+    evidence; judged like every other fault: the property demands the directory entry persisted before the pointer moves."""
     return bool(f.get("isdir")) and f["call"] in ("open", "fsync")
 
 
@@ -507,7 +568,7 @@ def oracle_faults(ctx, scenarios: List[List[Any]]) -> List[Case]:
                 specs.append({"steps": pc.steps, "mode": "inproc", "fault": {"index": f["i"], "kind": "short_write"}, "_expect": f})
     fcases = make_cases(ctx, specs)
     stats = {"scenarios": len(probes), "durability_calls": len(specs), "by_call": {}, "aborted_cleanly": 0, "swallowed_and_acknowledged": 0,
-             "dir_sync_faults_tolerated_by_design": 0, "dir_sync_faults_with_violating_prefixes": 0, "not_injected": 0}
+             "dir_sync_faults": 0, "dir_sync_faults_with_violating_prefixes": 0, "not_injected": 0}
     for sp, fc in zip(specs, fcases):
         if fc.error:
             report_unbounded(ctx, fc)
@@ -525,9 +586,10 @@ def oracle_faults(ctx, scenarios: List[List[Any]]) -> List[Case]:
         for a in ack_check(fc):
             viol.append({"prefix": a["prefix"], "outcome": "drop_all", "problems": [dict(a, problem="acknowledged commit not durable")]})
         if is_dir_sync_fault(inj):
-            stats["dir_sync_faults_tolerated_by_design"] += 1
+            # a failing directory open / fsync leaves the rename of the file just published unpersisted: the library
+            # must not go on to advance (and acknowledge) a pointer that reaches it -- judged like every other fault
+            stats["dir_sync_faults"] += 1
             stats["dir_sync_faults_with_violating_prefixes"] += 1 if viol else 0
-            continue
         report_violations(ctx, fc, viol, None)
     ctx.stats["fault_injection"] = stats
     return fcases
@@ -703,9 +765,11 @@ def run(ctx) -> None:
     ctx.rule = ("scenarios = fixed list covering create / append / multi-append / delete_files / expire / delete_snapshot + seeded "
                 "random histories; a case is distinct by (tracer, step list); oracle evaluations = (prefix, outcome) pairs of the "
                 "observed raw traces judged by the independent reader; fault class = one OSError(EIO) at each durability call "
-                "(temp creation / write / fsync descriptor / fsync / rename) of the fault scenarios, one run per call")
+                "(temp creation / write / fsync descriptor / fsync / rename / directory descriptor / directory fsync) of the fault "
+                "scenarios, one run per call")
     ctx.trusted_base += [
-        "translator/gen_durable.py (ast walk of write_file / DataFileWriter.open+close -> call sequence; golden order of the commit steps)",
+        "translator/gen_durable.py (ast walk of write_file / DataFileWriter.open+close -> call sequence; their except handlers -> which "
+        "failures propagate and what the cleanup does; golden order of the commit steps)",
         "power-loss model of coq/Model/Durable.v: fsync(file) persists that inode's content, fsync(dir) persists that directory's "
         "entries, anything else may or may not persist (POSIX-strict; real file systems are at least this strong)",
         "harness/lib/ostrace.py tracers + canonicaliser (projection rules in canonicalise.__doc__), harness/lib/powerloss.py, "
@@ -715,7 +779,8 @@ def run(ctx) -> None:
     ctx.assumptions += [
         "directories exist durably (makedirs and the table root's entry in its parent are outside the property)",
         "files are append-only while open (no seek-back rewrite): the tracers report pwrite-not-at-end / truncate as unknown calls",
-        "a swallowed OSError from the directory fsync is not modelled in the main theorems",
+        "the file system can fsync directories (a directory fsync refused with EINVAL / ENOTSUP, or a platform without it, is tolerated "
+        "by the library -- dir_fsync_unsupported, pinned by the translator; every other failure of it propagates)",
     ]
     ctx.proofs(THEOREMS, gen_files=["GenDurable.v"])
     ctx.allow_axioms([])
@@ -783,14 +848,6 @@ def run(ctx) -> None:
             if not v:
                 ctx.proof_problems.append(f"oracle self-test: mutation {mu} ({mode}) was NOT detected by the power-loss oracle")
     ctx.stats["oracle_sensitivity"] = sens
-    # fault variant (DESIGN.md C16 "Not in the model"): the data directory's fsync raises OSError, which
-    # DataFileWriter.close swallows by design.  Informational only: never a violation, never a proof problem.
-    fc = make_case(ctx, BASE_SCENARIOS[0], "inproc", "dir_fsync_eio")
-    fv, fe = powerloss.sweep(fc.raw, fc.root, fc.reader, outcomes=["drop_all"])
-    ctx.stats["fault_variant_dir_fsync_oserror_swallowed"] = {
-        "note": "with the data directory's fsync failing (EIO, swallowed by DataFileWriter.close) the library still acknowledges the commit; outside the main theorems",
-        "steps_ok": [r.get("ok") for r in fc.results], "drop_all_violating_prefixes": len(fv), "prefixes": fe,
-        "first": (fv[0]["prefix"], fv[0]["problems"][0].get("file"), fv[0]["problems"][0].get("problem")) if fv else None}
     ctx.stats["selftest_s"] = round(time.time() - t0, 1)
 
     # ---- correspondence with the model
@@ -802,7 +859,15 @@ def run(ctx) -> None:
         modelled = [c for c in fault_cases if not c.error and not c.problems and not c.can["unknown"] and any("fail" in o for o in c.ops)]
         ctx.stats["fault_runs_modelled_as_OFail"] = len(modelled)
         ctx.stats["fault_runs_outside_model"] = sum(1 for c in fault_cases if not c.error and c.problems)
-        corr_model(ctx, modelled if not quick else modelled[:40], prefix="fault-")
+        k4 = [c for c in modelled if any(o.get("k") == 4 for o in c.ops if "fail" in o)]      # directory fsync / its descriptor failed
+        ctx.stats["fault_runs_modelled_dir_fsync_failed"] = len(k4)
+        if not quick:
+            picked = modelled
+        else:       # quick: a bounded sample that always contains directory-fsync failures
+            picked = k4[:12] + [c for c in modelled if c not in k4[:12]][:28]
+        corr_model(ctx, picked, prefix="fault-")
+        if fault_cases and not k4:
+            ctx.proof_problems.append("no fault run with a failing directory fsync inside append_data reached the model (OFail k = 4 not exercised)")
         corr_evaluator(ctx, (cases[:3] + scases[:1]) if quick else allc)
         corr_schedules(ctx, (cases[:6] + scases[:1]) if quick else allc, 2 if quick else 4)
         # tracers agree
